@@ -305,7 +305,7 @@ def outside_domain(line):
         if op == "sm.command_mac":
             return a[2] != "-" and not 4 <= int(a[2]) <= 8
         if op in ("kd.mk_a", "kd.mk_b"):
-            return _hexlen(a[0]) != 16 or not _sb_digits(a[1]) or len(a[1]) <= 2 or not _sb_digits(a[2]) \
+            return _hexlen(a[0]) != 16 or not _sb_digits(a[1]) or a[1] == "-" or _hexlen(a[1][2:]) == 0 or not _sb_digits(a[2]) \
                 or (a[2] != "-" and _hexlen(a[2][2:]) != 2)
         if op == "kd.tree_sk":
             return int(a[2]) < 1 or int(a[3]) < 1
@@ -317,7 +317,7 @@ def outside_domain(line):
             return not _sb_digits(a[0])
         if op == "cvn":
             cls, m, r = a[0], a[6], a[7:]
-            if any(_hexlen(k) != 16 for k in a[1:4]) or not _sb_digits(a[4]) or len(a[4]) <= 2 or not _sb_digits(a[5]) \
+            if any(_hexlen(k) != 16 for k in a[1:4]) or not _sb_digits(a[4]) or a[4] == "-" or _hexlen(a[4][2:]) == 0 or not _sb_digits(a[5]) \
                     or (a[5] != "-" and _hexlen(a[5][2:]) not in (0, 2)):
                 return True
             if m == "enc" and cls.startswith("Visa") and _hexlen(r[0]) > 255:
